@@ -5,7 +5,7 @@ from .. import coregen
 ID = "C02"
 SUITES = ["core"]
 LEAN_MODULES = ["VpnCloud.Proofs.C02"]
-THEOREMS = []
+THEOREMS = ["VpnCloud.Proofs.C02." + n for n in ("roundtrip", "accepted_is_genuine", "reject_no_state", "garbage_rejected", "reflection_rejected", "cross_connection_rejected")]
 BATCH = 100
 SEARCH_BUDGET_S = 300
 EXPECTED_CLASSES = ["seal:d", "deliver:ok", "deliver:err", "tick:ok"]
